@@ -7,6 +7,7 @@ import (
 	"path/filepath"
 	"sort"
 	"sync"
+	"sync/atomic"
 	"time"
 
 	"worldcoin/gnark-mbu/prover"
@@ -24,6 +25,14 @@ var fileReaderMu sync.Mutex
 
 // readOutcome runs a read under recover() and a watchdog.
 func readOutcome(read func() error) (outcome string, detail string) {
+	return readOutcomeWithin(5*time.Minute, read)
+}
+
+// hangSeen is set once a read did not return: later reads through the same entry point are skipped (each
+// would cost a full watchdog period, and the spinning reader keeps a core busy).
+var hangSeen atomic.Bool
+
+func readOutcomeWithin(watchdog time.Duration, read func() error) (outcome string, detail string) {
 	done := make(chan [2]string, 1)
 	go func() {
 		defer func() {
@@ -40,8 +49,9 @@ func readOutcome(read func() error) (outcome string, detail string) {
 	select {
 	case r := <-done:
 		return r[0], r[1]
-	case <-time.After(5 * time.Minute):
-		return "hang", "no result after 5 minutes"
+	case <-time.After(watchdog):
+		hangSeen.Store(true)
+		return "hang", fmt.Sprintf("no result after %v", watchdog)
 	}
 }
 
@@ -91,18 +101,25 @@ func runC15(o *cli.Opts, run *evid.Run) {
 					continue
 				}
 				var got prover.ProvingSystem
-				out, det := readOutcome(func() error { _, e := got.UnsafeReadFrom(bytes.NewReader(data[:off])); return e })
+				if hangSeen.Load() {
+					continue
+				}
+				out, det := readOutcomeWithin(time.Minute, func() error { _, e := got.UnsafeReadFrom(bytes.NewReader(data[:off])); return e })
 				section := sectionOf(int64(off), bounds)
 				sample := map[string]any{"format": fmtName(raw), "file_bytes": len(data), "cut_at": off, "section": section, "outcome": out}
 				if out != "error" {
 					run.Violate(ck, fmt.Sprintf("%s file of %d bytes cut at %d (%s): outcome %s %s", fmtName(raw), len(data), off, section, out, det), sample)
 				}
 				run.Case("small/"+fmtName(raw)+"/"+section, true, ck, out == "loaded", sample)
-				if off%16 == 5 { // also through the file-based reader
+				if off%16 == 5 || off < 12 { // also through the file-based reader (every cut inside and just after the header)
 					path := filepath.Join(o.Scratch, fmt.Sprintf("cut-%d-%v-%d", i, raw, off))
 					os.WriteFile(path, data[:off], 0o644)
+					if hangSeen.Load() {
+						os.Remove(path)
+						continue
+					}
 					fileReaderMu.Lock()
-					out2, det2 := readOutcome(func() error { _, e := prover.ReadSystemFromFile(path); return e })
+					out2, det2 := readOutcomeWithin(time.Minute, func() error { _, e := prover.ReadSystemFromFile(path); return e })
 					fileReaderMu.Unlock()
 					os.Remove(path)
 					if out2 != "error" {
@@ -282,14 +299,11 @@ func c15CLI(o *cli.Opts, run *evid.Run, files []string, full string) {
 		}
 		run.Add("cli_runs", 1)
 		sample := map[string]any{"command": j.cmd, "file": name, "exit": res.Exit, "timed_out": res.TimedOut}
-		bad := res.Exit == 0 && !res.TimedOut
-		if j.cmd == "start" && res.TimedOut {
-			bad = true // still running after 20 s: it went on to serve
-		}
+		// a command still running after its watchdog (20 s for start, 3 min otherwise: >100x the time a complete
+		// file of this size takes) either went on to serve or hangs on the truncated file: both are violations
+		bad := res.Exit == 0 || res.TimedOut
 		if bad {
-			run.Violate(key, fmt.Sprintf("`gnark-mbu %s` on truncated keys file %s: exit=%d still_running=%v", j.cmd, name, res.Exit, res.TimedOut), sample)
-		} else if res.TimedOut {
-			run.Inconclusive(key + ": command timed out")
+			run.Violate(key, fmt.Sprintf("`gnark-mbu %s` on truncated keys file %s: exit=%d still_running_after_watchdog=%v", j.cmd, name, res.Exit, res.TimedOut), sample)
 		}
 		run.Case("cli/"+j.cmd, true, key, bad, sample)
 	})
